@@ -1,3 +1,4 @@
+import Lm.Inst.CoreTie
 import Lm.Inv.CoreSafe
 import Lm.Inv.CoreGuards
 /-! # C07 — Context lifecycle: one per thread, teardown deregisters every module -/
@@ -81,5 +82,11 @@ def demo : List Op :=
 example : ((run {} demo).st.mods.map (·.state)) = [.zombie] := by decide
 example : ((run {} demo).st.ctx.map (·.id)) = some 1 := by decide
 example : ((run {} (demo.take 7)).st.ctx.isNone) = true := by decide
+
+
+/-- tie A: the guard prefixes of the entry points this property is about, re-extracted from the source on every run,
+are the ones the model transcribes (`Lm.Inst.CoreTie`) -/
+theorem C07_guards_in_source :
+    Lm.Inst.CoreTie.slice Lm.Generated.CoreGuards.guards ["m_ctx_register", "m_ctx_deregister", "m_ctx_loop", "m_ctx_dispatch", "m_ctx_quit", "m_ctx_finalize", "m_ctx_len", "m_mod_register"] = Lm.Inst.CoreTie.slice Lm.Inst.CoreTie.expected ["m_ctx_register", "m_ctx_deregister", "m_ctx_loop", "m_ctx_dispatch", "m_ctx_quit", "m_ctx_finalize", "m_ctx_len", "m_mod_register"] := by decide
 
 end Lm.Props.C07
